@@ -190,6 +190,24 @@ func run(c *mon.Case) {
 			p := r.Intn(len(tok) + 1)
 			line, mode = tok[:p]+"_"+tok[p:], "underscore"
 		}
+		if r.Intn(12) == 0 {
+			// values on the modulus: +-k*2^(8w) and neighbours, +-2^(8w-1), in any base
+			v := new(big.Int).Lsh(big.NewInt(int64([]int{1, 1, 2, 3, 256}[r.Intn(5)])), uint(8*int(w)))
+			switch r.Intn(5) {
+			case 0:
+				v.Add(v, big.NewInt(1))
+			case 1:
+				v.Sub(v, big.NewInt(1))
+			case 2:
+				v.Rsh(v, 1)
+			}
+			line = map[int]string{0: v.Text(10), 1: "0x" + v.Text(16), 2: "0b" + v.Text(2), 3: "0o" + v.Text(8), 4: "0" + v.Text(8)}[r.Intn(5)]
+			if r.Intn(3) != 0 {
+				line = "-" + line
+			}
+			mode = "modulus"
+			c.Count("value_on_modulus", 1)
+		}
 		if r.Intn(25) == 0 {
 			// very long lines (around and beyond the line reader's 4 KiB buffer): a
 			// prefixed literal padded with zeros behind its prefix, or a long decimal
@@ -288,7 +306,7 @@ func min(a, b int) int {
 func main() {
 	mon.Main(mon.Spec{
 		Prop: "C30",
-		Rule: "case = token/line: literals in base 10/16/2/8 with 1..65 digits and both prefix spellings, boundary tokens (2^64-1 and 2^64 in every base, 0, 00, 08, bare prefixes, 0b2, 0xg), malformed tokens (one inserted '_', sign, space, letter), all kinds of one- and two-character tokens; value lines additionally with '-', '+', padding, underscores and empty, at widths 1..16 and 255, one line in 25 being 4-20 thousand characters long (zero-padded prefixed literals, long decimals, some with an early junk character); non-trivial = accepted value, or address token that is not a plain multi-digit decimal; distinct by token",
+		Rule: "case = token/line: literals in base 10/16/2/8 with 1..65 digits and both prefix spellings, boundary tokens (2^64-1 and 2^64 in every base, 0, 00, 08, bare prefixes, 0b2, 0xg), malformed tokens (one inserted '_', sign, space, letter), all kinds of one- and two-character tokens; value lines additionally with '-', '+', padding, underscores and empty, at widths 1..16 and 255, one line in 12 a value on the modulus (+-k*2^(8w), its neighbours, +-2^(8w-1)) in any base, one line in 25 being 4-20 thousand characters long (zero-padded prefixed literals, long decimals, some with an early junk character); non-trivial = accepted value, or address token that is not a plain multi-digit decimal; distinct by token",
 		Explanation: "oracle: an independent literal parser: an address token of one of the four stated forms must give exactly its value (< 2^64), every other token must be answered with an error, never a panic; a typed value with optional '-' must become the integer modulo 2^(8w) as a w-byte constant and consume exactly one line; empty lines, underscores and malformed numbers must be rejected; '+'-prefixed and whitespace-padded lines are checked for no-crash only",
 		Assumptions: []string{"parseAddr and readValue reached through verif hooks; the line is fed through the replaced line reader"},
 		Cases: func(t string) int {
@@ -303,7 +321,7 @@ func main() {
 			}
 			return 100000
 		},
-		RequiredCounts: []string{"addr_tokens", "values_accepted", "values_rejected", "value_long_lines"},
+		RequiredCounts: []string{"addr_tokens", "values_accepted", "values_rejected", "value_long_lines", "value_on_modulus"},
 		Run:            run,
 	})
 }
